@@ -8,7 +8,8 @@
  "specs": {"datastruct/ptrheap.c": "contracts/c13_ptrheap_unbounded.spec",
            "datastruct/elasticarray.c": "contracts/c13_elasticarray_bounds.spec"},
  "defines": ["VERIF_HALLOC", "HU_CAP=32"],
- "timeout": 600,
+ "cbmc": ["--arrays-uf-always"],
+ "timeout": 900,
  "assumptions": ["abstract user of harness/C13/hu_model.h (elements are pointers into one object pool; callbacks compute the record id from the pointer)",
                  "object-size parameter: the pointer-list buffer holds at most HU_CAP = 32 slots (nelems is symbolic up to that); no loop is unwound, the sift loop is closed by its loop contract",
                  "ghost-instantiated preconditions: the requires clause states the instances of the for-all precondition at the ghost slot / ghost record; callers that hold the for-all fact hold every instance",
